@@ -34,30 +34,48 @@ pub fn prepare(file: Vec<u8>) -> Result<Prepared, String> {
         Ok(Err(err)) => return Err(format!("expand_err:{}", err.exit_code().as_integer_error_code())),
         Err(_) => return Err(format!("expand_panic:{}", util::panic_site(&util::take_last_panic()))),
     };
-    let mut rec = RecordingWriter::default();
+    // precondition (C01 territory): the fault-free round trip exactly as the library's own tests
+    // do it, Cursor -> Vec
+    let mut plain_out: Vec<u8> = Vec::new();
     let res = catch_unwind(AssertUnwindSafe(|| {
         let mut cur = std::io::Cursor::new(&e[..]);
-        preflate_rs::recreated_zlib_chunks(&mut cur, &mut rec)
+        preflate_rs::recreated_zlib_chunks(&mut cur, &mut plain_out)
     }));
     match res {
         Ok(Ok(())) => {}
         Ok(Err(err)) => return Err(format!("recreate_err:{}", err.exit_code().as_integer_error_code())),
         Err(_) => return Err(format!("recreate_panic:{}", util::panic_site(&util::take_last_panic()))),
     }
-    if rec.data != file {
+    if plain_out != file {
         return Err("roundtrip_mismatch".to_string());
+    }
+    // the same run through a destination that implements nothing but write(): it records where
+    // the write calls start (structural boundaries of the destination). Its output is *judged*
+    // by the caller (prepare_checked): a destination is free to be any Write implementation.
+    let mut rec = RecordingWriter::default();
+    let res = catch_unwind(AssertUnwindSafe(|| {
+        let mut cur = std::io::Cursor::new(&e[..]);
+        preflate_rs::recreated_zlib_chunks(&mut cur, &mut rec)
+    }));
+    let recording_ok = matches!(res, Ok(Ok(()))) && rec.data == file;
+    if !matches!(res, Ok(_)) {
+        let _ = util::take_last_panic();
+    }
+    if !recording_ok {
+        // boundaries are unreliable; fall back to none (the fault runs will report the violation)
+        rec.call_offsets.clear();
     }
     let layout = parse_layout(&e);
     let src_bounds = Arc::new(layout.boundaries());
     let mut d = rec.call_offsets.clone();
-    d.push(rec.data.len() as u64);
+    d.push(file.len() as u64);
     d.sort();
     d.dedup();
     let wl_hash = hash_bytes(&file);
     Ok(Prepared {
+        r: file.clone(),
         file,
         e,
-        r: rec.data,
         layout,
         src_bounds,
         dst_bounds: Arc::new(d),
